@@ -423,6 +423,18 @@ def layout_agreement(ctx, rid):
             ctx.inst(rid, (f.unit, fname), 'row length of %s in %s' % (base, fname), len(Ls) == 1,
                      "%d row-major accesses, all with row length %s" % (len(lst), Ls[0]) if len(Ls) == 1 else
                      "`%s` is indexed with different row lengths %s in one function: rows written are not the rows read" % (base, Ls))
+    # a buffer that is addressed in rows inside a function is not also addressed flat there (row 0 only)
+    for fname, bases in sorted(sites.items()):
+        f = C.funcs[fname]
+        for base in sorted(bases):
+            flat = [s_ for s_ in f.subs if nsp(s_['base']) == base and not any(s_ is x for _, x in bases[base])
+                    and '*' not in nsp(s_['index'])]
+            n += 1
+            ctx.inst(rid, (f.unit, fname), 'flat accesses of the row-major buffer %s in %s' % (base, fname), not flat,
+                     "none" if not flat else
+                     "`%s[%s]` addresses the row-major buffer `%s` without a row offset while the same function also addresses "
+                     "it in rows: every row but the first is read from / written to row 0 (e.g. each anneal after the first "
+                     "starts from an earlier anneal's result)" % (base, nsp(flat[0]['index']), base))
     for fname in sorted(sites):
         f = C.funcs[fname]
         for c in f.calls:
